@@ -58,6 +58,8 @@ type Client struct {
 	pausing   bool
 	polling   bool
 	posting   bool
+	lateN     int
+	candDead  bool
 	upgrading bool
 	sendQ     []ref.Packet
 	pollResp  *Resp
@@ -533,6 +535,12 @@ func (c *Client) pollLoop() {
 		if c.stopped {
 			return
 		}
+		if c.transport != "polling" {
+			// the client switched transports while this poll was pending (impatient upgrade): what the old
+			// transport still brings is of no concern to it any more
+			c.rec("c-poll-after-switch", "", int64(r.Status))
+			return
+		}
 		if r.Status != 200 {
 			c.rec("c-poll-error", "", int64(r.Status))
 			c.fail("poll status " + strconv.Itoa(r.Status))
@@ -629,6 +637,11 @@ func (c *Client) writeLoop() {
 		}
 		if r.Status != 200 || string(r.Body) != "ok" {
 			c.rec("c-post-error", string(r.Body), int64(r.Status))
+			if c.transport != "polling" {
+				// the client switched transports while this request was in flight (impatient upgrade): the old
+				// transport's request is of no concern to it any more
+				continue
+			}
 			c.fail("post status " + strconv.Itoa(r.Status))
 			return
 		}
@@ -644,6 +657,8 @@ func (c *Client) streamReader(s streamConn) {
 			c.rec("c-stream-end", s.kind()+": "+err.Error(), 0)
 			if c.stream == s {
 				c.fail("stream closed: " + err.Error())
+			} else if c.cand == s {
+				c.candDead = true
 			}
 			return
 		}
@@ -675,6 +690,7 @@ func (c *Client) probe(kind string, script []CandOp) {
 		return
 	}
 	c.cand = s
+	c.candDead = false
 	c.rec("c-probe-start", kind, 0)
 	if script != nil {
 		c.playCandidate(s, script)
@@ -753,7 +769,12 @@ func (c *Client) playCandidate(s streamConn, script []CandOp) {
 		case "pong":
 			err = s.sendPacket(ref.Packet{Type: tPong, Data: []byte(op.Arg)})
 		case "msg":
-			c.w.recx(Ev{Sess: c.name, Kind: "c-cand-send", S: "t:" + op.Arg})
+			if c.stream == s {
+				// after the switch: an ordinary message on the session's transport
+				c.w.recx(Ev{Sess: c.name, Kind: "c-send", S: "t:" + op.Arg})
+			} else {
+				c.w.recx(Ev{Sess: c.name, Kind: "c-cand-send", S: "t:" + op.Arg})
+			}
 			err = s.sendPacket(ref.Packet{Type: tMessage, Data: []byte(op.Arg)})
 		case "noop":
 			err = s.sendPacket(ref.Packet{Type: tNoop})
@@ -779,11 +800,25 @@ func (c *Client) playCandidate(s streamConn, script []CandOp) {
 				gotPong = p.Type == tPong && string(p.Data) == "probe"
 				c.rec("c-cand-recv", pktString(p), 0)
 			}
-			if gotPong {
+			watching := false
+			if gotPong && op.Arg == "nopause" {
+				// an impatient client: it switches without waiting for its poll and its data request in flight
+				c.w.probe("upgrade_without_pause")
 				c.pausing = true
-				simrt.Block(func() bool { return c.closed || (!c.polling && !c.posting) })
+			} else if gotPong {
+				// while the polling transport is being paused the client keeps an eye on the candidate, as a real
+				// one does: if the server drops it meanwhile (upgrade timeout) the client stays on polling
+				watching = true
+				c.spawn("reader", func() { c.streamReader(s) })
+				c.pausing = true
+				simrt.Block(func() bool { return c.closed || c.candDead || (!c.polling && !c.posting) })
 				if c.closed {
 					s.close()
+					return
+				}
+				if c.candDead {
+					c.pausing, c.paused = false, false
+					c.rec("c-cand-end", "candidate lost while pausing", 0)
 					return
 				}
 				c.paused = true
@@ -793,8 +828,17 @@ func (c *Client) playCandidate(s streamConn, script []CandOp) {
 				c.stream, c.transport = s, s.kind()
 				c.pausing = false
 				c.rec("c-upgraded", s.kind(), 0)
-				c.spawn("reader", func() { c.streamReader(s) })
+				if !watching {
+					c.spawn("reader", func() { c.streamReader(s) })
+				}
+				if op.Arg == "nopause" {
+					continue // the rest of the script is what the impatient client submits on its new transport
+				}
 				return
+			}
+			if gotPong {
+				// the candidate was gone when the client wanted to switch: it stays on polling
+				c.pausing, c.paused = false, false
 			}
 			c.rec("c-cand-upgrade-unprobed", "", 0)
 		case "disconnect":
@@ -807,6 +851,9 @@ func (c *Client) playCandidate(s streamConn, script []CandOp) {
 			c.rec("c-cand-end", err.Error(), 0)
 			return
 		}
+	}
+	if c.stream == s {
+		return // switched: the stream reader looks after the connection
 	}
 	// leave the candidate open and watch what the server does with it
 	for {
@@ -880,6 +927,23 @@ func (c *Client) doFault(f FaultSpec) {
 				h["Content-Type"] = ct
 				r := c.w.serve(c.w.H, c.name, ReqSpec{Method: "POST", Path: c.path(), Query: c.query("polling"), Hdr: h, Body: body})
 				c.rec("c-dup-post", "", int64(r.Status))
+			})
+		}
+	case "late-post":
+		// an impatient client: a second data request with a message of its own while the previous data request is
+		// still being served (at a later instant than that one's arrival). A server that accepts it has to keep the
+		// order of submission all the same; one that refuses it delivers nothing of it
+		if c.transport == "polling" {
+			c.w.fault("overlap-post")
+			c.lateN++
+			data := payloadFor(fmt.Sprintf("%s.late%d", c.name, c.lateN), 12)
+			c.spawn("late", func() {
+				c.w.recx(Ev{Sess: c.name, Kind: "c-send", S: "t:" + string(data)})
+				body, ct := c.encodePost([]ref.Packet{{Type: tMessage, Data: data}})
+				h := c.hdr()
+				h["Content-Type"] = ct
+				r := c.w.serve(c.w.H, c.name, ReqSpec{Method: "POST", Path: c.path(), Query: c.query("polling"), Hdr: h, Body: body})
+				c.rec("c-late-post", "", int64(r.Status))
 			})
 		}
 	case "reset":
